@@ -170,8 +170,9 @@ impl Encoder<Message<(Response<()>, BodySize)>> for Codec {
                     self.conn_type
                 };
 
-                // encode message
-                self.encoder.encode(
+                // encode message; the connection type comes back as `Close` if the body has to be
+                // delimited by the end of the connection
+                self.conn_type = self.encoder.encode(
                     dst,
                     &mut res,
                     self.flags.contains(Flags::HEAD),
